@@ -29,7 +29,9 @@ RULE = ('full: every e in {I,X,Y,Z}^n for each (class, size, deformation) with n
         'bound incl. elongated lattices; structured: single-qubit '
         'X/Y/Z on every qubit, every generator, every logical, every product of two generators (capped per code, cap '
         'reported), generator x logical, generator x single-qubit error; non-trivial = distinct non-identity '
-        'operators per configuration; the structured family also on used objects and in per-class sessions')
+        'operators per configuration; the structured family also on used objects and in per-class sessions; up to '
+        '40 of the operators of each full/structured configuration (fresh objects) and the sums of the first generators (built '
+        'by sparse arithmetic, mod 2) again as sparse rows: canonical csr, explicit zeros, unsorted indices')
 ASSUMPTIONS = ['listed logical operators are valid (C01)', 'GF(2) reference mc/gf2.py']
 BOUNDS = {'quick': {'full_n': 6, 'struct_n': 40, 'struct_l_max': 4, 'pair_cap': 100, 'single_n': 100,
                     'single_l_max': 6},
@@ -132,6 +134,53 @@ def eval_case(cfg):
             continue
         seen.add(e)
         out.add(check(e))
+    # the same predicates on residual errors held as sparse rows: canonical csr, csr with explicitly stored
+    # zeros (what sparse arithmetic leaves behind: row = H[i] + H[j]; row.data %= 2) and csr with unsorted indices
+    if cfg['part'] != 'singles' and not cfg.get('pre'):
+        from scipy.sparse import csr_matrix
+        Hs = code.stabilizer_matrix
+        sparse_ops = []
+        pick = sorted(seen)
+        step = max(1, len(pick) // 40)
+        for e in pick[::step][:40]:
+            bits = gf2.int_to_vec(e, 2 * n)
+            sparse_ops.append((e, 'csr', csr_matrix(np.array([bits], dtype='uint8'))))
+            sparse_ops.append((e, 'csr/explicit-zeros',
+                               csr_matrix((np.array(bits, dtype='uint8'), np.arange(2 * n), np.array([0, 2 * n])),
+                                          shape=(1, 2 * n))))
+            cols = [i for i in range(2 * n) if bits[i]][::-1]
+            sparse_ops.append((e, 'csr/unsorted',
+                               csr_matrix((np.ones(len(cols), dtype='uint8'), np.array(cols, dtype=int),
+                                           np.array([0, len(cols)])), shape=(1, 2 * n))))
+        for i in range(min(len(H), 7)):
+            for j in range(i + 1, min(len(H), 7)):
+                row = Hs[i] + Hs[j]
+                row.data %= 2
+                sparse_ops.append((H[i] ^ H[j], 'sum-of-generators-mod-2', row))
+                for l in (LX + LZ)[:2]:
+                    lrow = csr_matrix(np.array([gf2.int_to_vec(l, 2 * n)], dtype='uint8'))
+                    r2 = row + lrow
+                    r2.data %= 2
+                    sparse_ops.append((H[i] ^ H[j] ^ l, 'generators-times-logical-mod-2', r2))
+        for e, kind, row in sparse_ops:
+            res['evals'] += 1
+            commutes = gf2.syndrome(H, e, n) == 0
+            in_group = basis.contains(e)
+            want_eff = [gf2.symp(e, LZ[i], n) for i in range(k)] + [gf2.symp(e, LX[i], n) for i in range(k)]
+            try:
+                ic = bool(code.in_codespace(row))
+                le = [int(t) for t in np.asarray(code.logical_errors(row)).ravel()]
+                ok = bool(code.is_success(row))
+            except Exception as exc:
+                bad('sparse-row-predicate-raises', e, representation=kind, exc=type(exc).__name__, msg=str(exc)[:100])
+                continue
+            if ic != commutes:
+                bad('in_codespace-wrong-on-sparse-row', e, representation=kind, expected=commutes, got=ic)
+            if le != want_eff:
+                bad('logical-effect-wrong-on-sparse-row', e, representation=kind, expected=want_eff, got=le)
+            if ok != in_group:
+                bad('success-iff-stabilizer-violated-on-sparse-row', e, representation=kind, in_stabilizer_group=in_group,
+                    is_success=ok)
     # coset-constancy and linearity hold by equality with the (linear, coset-constant) reference on every
     # operator checked; additionally exercise the stacked (2-D) path of the logical effect
     try:
